@@ -234,6 +234,22 @@ class DataPath:
         return cls(*spec_resolved_parts)
 
     def to_part_specs(self):
+        """Get part specs that `DataPath.from_part_specs` converts back to this path.
+
+        Part specs cannot represent `DATUM_TYPE`, `MULTI_TYPE` (use `to_spec`) or
+        `source_data`; a path that has any of these is refused rather than written
+        without them.
+        """
+        if self.DATUM_TYPE.value or self.MULTI_TYPE.value:
+            raise ValueError(
+                f"{self!r} has `DATUM_TYPE` or `MULTI_TYPE` set, which part specs cannot "
+                f"represent; use `to_spec` instead."
+            )
+        return self._to_part_specs()
+
+    def _to_part_specs(self):
+        if self.source_data is not None:
+            raise ValueError(f"{self!r} has `source_data`, which specs cannot represent.")
         parts = []
         for part, simple in zip(self.parts, self.simplify()):
             if isinstance(simple, ContainerValue):
@@ -252,7 +268,7 @@ class DataPath:
             key.append(self.MULTI_TYPE.name.lower())
         if self.DATUM_TYPE.value:
             key.append(self.DATUM_TYPE.name.lower())
-        return {".".join(key): self.to_part_specs()}
+        return {".".join(key): self._to_part_specs()}
 
     @classmethod
     def from_str(cls, path_str, delimiter="/"):
